@@ -35,6 +35,30 @@ impl MatchGeneratorDriver {
     }
 }
 
+#[cfg(zstd_rs_verif)]
+impl MatchGeneratorDriver {
+    /// Verification hook: a driver with a scaled-down slice size / window.
+    pub fn verif_new(slice_size: usize, max_slices_in_window: usize) -> Self {
+        Self::new(slice_size, max_slices_in_window)
+    }
+    /// Verification hook: (data, base_offset) of every window entry, oldest first; read-only.
+    pub fn verif_window(&self) -> Vec<(Vec<u8>, usize)> {
+        self.match_generator
+            .window
+            .iter()
+            .map(|e| (e.data.clone(), e.base_offset))
+            .collect()
+    }
+    /// Verification hook: sizes of the recycled buffer / suffix store pools; read-only.
+    pub fn verif_pools(&self) -> (usize, usize) {
+        (self.vec_pool.len(), self.suffix_pool.len())
+    }
+    /// Verification hook: the suffix store slot of a 5-byte key for a store with 2^len_log slots.
+    pub fn verif_suffix_key(suffix: &[u8; 5], len_log: u32) -> usize {
+        SuffixStore::with_capacity(1 << len_log).key(suffix)
+    }
+}
+
 impl Matcher for MatchGeneratorDriver {
     fn reset(&mut self, _level: CompressionLevel) {
         let vec_pool = &mut self.vec_pool;
